@@ -15,21 +15,50 @@ ASM_UNIT = "cmi_coroutine_context.asm"
 
 def c_frame_image(m, f):
     """Interpret cmi_coroutine_context_init as a sequence of byte stores relative to the aligned stack base.
-    Returns (bytes: offset -> (value, byte index, size), sp_offset, base expression, notes)."""
+    Locals are tracked by value: pointers as offsets from the base (the first `unsigned char *` local that is given a
+    value), scalars as integers / canonical strings, conditionally assigned scalars as variants.
+    Returns (bytes: offset -> {variant: (value, byte index, size)}, sp_offset, base expression, stores)."""
     cx = FuncCtx(m, f)
-    stk = None
-    off = None
-    base = None
+    env = {}
+    state = {"base": None, "sp_off": None, "started": False}
     bytemap = {}
-    sp_off = None
     stores = []
+
+    def ev(n):
+        """('ptr', off) | ('val', int or str) | ('var', {variant: int or str})"""
+        n0 = n
+        n = strip(n, casts=True)
+        k = n["kind"]
+        if k == "IntegerLiteral":
+            return ("val", int(n["value"]))
+        if k == "DeclRefExpr" and n["ref"]["id"] in env:
+            return env[n["ref"]["id"]]
+        if k == "BinaryOperator" and n.get("opcode") in ("+", "-", "<<", "|", "*"):
+            a_, b_ = ev(kids(n)[0]), ev(kids(n)[1])
+            op = n["opcode"]
+            if a_[0] == "ptr" and b_[0] == "val" and isinstance(b_[1], int) and op in ("+", "-"):
+                return ("ptr", a_[1] + (b_[1] if op == "+" else -b_[1]))
+            if a_[0] == "val" and b_[0] == "val" and isinstance(a_[1], int) and isinstance(b_[1], int):
+                return ("val", {"+": a_[1] + b_[1], "-": a_[1] - b_[1], "<<": a_[1] << b_[1], "|": a_[1] | b_[1], "*": a_[1] * b_[1]}[op])
+            if a_[0] == "ptr":
+                raise AnalysisBroken("context_init: stack pointer moved by a non-constant")
+        v = int_value(n)
+        if v is not None:
+            return ("val", v)
+        return ("val", cx.canon(n0))
+
+    def put(off, size, val, variant, where):
+        stores.append((off, size, val, variant, where))
+        for i in range(size):
+            bytemap.setdefault(off + i, {})[variant] = (val, i, size)
+            if variant is None:
+                bytemap[off + i] = {None: (val, i, size)}
 
     def do_store(lhs, rhs, variant=None):
         l = strip(lhs, casts=True)
         if not (l["kind"] == "UnaryOperator" and l.get("opcode") == "*"):
             return False
         ptr = kids(l)[0]
-        # size from the cast type
         cast = ptr
         while cast["kind"] in ("ParenExpr", "ImplicitCastExpr"):
             cast = kids(cast)[0]
@@ -37,67 +66,93 @@ def c_frame_image(m, f):
             return False
         t = cast.get("type") or ""
         size = {"uint64_t *": 8, "uint32_t *": 4, "uint16_t *": 2, "uint8_t *": 1}.get(t)
-        inner = strip(kids(cast)[0], casts=True)
-        k = 0
-        if inner["kind"] == "BinaryOperator" and inner.get("opcode") in ("+", "-"):
-            b = strip(kids(inner)[0], casts=True)
-            kv = int_value(kids(inner)[1])
-            if b["kind"] == "DeclRefExpr" and b["ref"]["id"] == stk and kv is not None:
-                k = kv if inner["opcode"] == "+" else -kv
-                inner = b
-        if not (inner["kind"] == "DeclRefExpr" and inner["ref"]["id"] == stk):
+        pv = ev(kids(cast)[0])
+        if pv[0] != "ptr":
             return False
         if size is None:
             raise AnalysisBroken("context_init: store through unsupported pointer type %s" % t)
-        v = int_value(rhs)
-        val = v if v is not None else cx.canon(rhs)
-        stores.append((off + k, size, val, variant, loc(lhs)))
-        for i in range(size):
-            bytemap.setdefault(off + k + i, {})[variant] = (val, i, size)
-            if variant is None:
-                bytemap[off + k + i] = {None: (val, i, size)}
+        rv = ev(rhs)
+        if rv[0] == "var":
+            for vk, vv in rv[1].items():
+                put(pv[1], size, vv, vk, loc(lhs))
+        elif rv[0] == "val":
+            put(pv[1], size, rv[1], variant, loc(lhs))
+        else:
+            put(pv[1], size, "frame%+d" % rv[1], variant, loc(lhs))
+        return True
+
+    def simple(s, variant=None):
+        """one statement without control flow; returns False if it is not understood as frame construction"""
+        k = s["kind"]
+        if k == "DeclStmt":
+            for d in kids(s):
+                if d["kind"] != "VarDecl":
+                    continue
+                if not state["started"]:
+                    if "unsigned char *" in (d.get("type") or "") and kids(d):
+                        state["started"] = True
+                        state["base"] = cx.canon(kids(d)[0])
+                        env[d["id"]] = ("ptr", 0)
+                    continue
+                env[d["id"]] = ev(kids(d)[0]) if kids(d) else ("val", "?")
+            return True
+        if not state["started"]:
+            return True
+        if k == "CompoundAssignOperator" and s.get("opcode") in ("+=", "-="):
+            l = strip(kids(s)[0], casts=True)
+            if l["kind"] == "DeclRefExpr" and l["ref"]["id"] in env and env[l["ref"]["id"]][0] == "ptr":
+                n_ = ev(kids(s)[1])
+                if n_[0] != "val" or not isinstance(n_[1], int):
+                    raise AnalysisBroken("context_init: stack pointer moved by a non-constant")
+                env[l["ref"]["id"]] = ("ptr", env[l["ref"]["id"]][1] + (n_[1] if s["opcode"] == "+=" else -n_[1]))
+                return True
+            return True
+        if k == "BinaryOperator" and s.get("opcode") == "=":
+            if do_store(kids(s)[0], kids(s)[1], variant):
+                return True
+            l = strip(kids(s)[0], casts=True)
+            if l["kind"] == "DeclRefExpr":
+                env[l["ref"]["id"]] = ev(kids(s)[1])
+                return True
+            lc = cx.canon(kids(s)[0])
+            if lc.endswith("->stack_pointer"):
+                r = ev(kids(s)[1])
+                if r[0] == "ptr":
+                    state["sp_off"] = r[1]
+            return True
         return True
 
     for s in kids(f.body):
         k = s["kind"]
-        if k == "DeclStmt":
-            for d in kids(s):
-                if d["kind"] == "VarDecl" and "unsigned char *" in (d.get("type") or "") and kids(d):
-                    stk = d["id"]
-                    base = cx.canon(kids(d)[0])
-                    off = 0
-            continue
-        if stk is None:
-            continue
-        if k == "CompoundAssignOperator":
-            l = strip(kids(s)[0], casts=True)
-            if l["kind"] == "DeclRefExpr" and l["ref"]["id"] == stk:
-                n = int_value(kids(s)[1])
-                if n is None:
-                    raise AnalysisBroken("context_init: stack pointer moved by a non-constant")
-                off += n if s["opcode"] == "+=" else -n
-                continue
-        if k == "BinaryOperator" and s.get("opcode") == "=":
-            if do_store(kids(s)[0], kids(s)[1]):
-                continue
-            lc = cx.canon(kids(s)[0])
-            if lc.endswith("->stack_pointer"):
-                r = strip(kids(s)[1], casts=True)
-                if r["kind"] == "DeclRefExpr" and r["ref"]["id"] == stk:
-                    sp_off = off
-                continue
-        if k == "IfStmt":
+        if k == "IfStmt" and state["started"]:
             cond = cx.canon(kids(s)[0])
+            before = dict(env)
+            results = []
             for bi, br in enumerate(kids(s)[1:3]):
+                env.clear()
+                env.update(before)
                 for x in kids(br) if br["kind"] == "CompoundStmt" else [br]:
-                    if x["kind"] == "BinaryOperator" and x.get("opcode") == "=":
-                        do_store(kids(x)[0], kids(x)[1], variant=(cond, bi == 0))
+                    simple(x, variant=(cond, bi == 0))
+                results.append(dict(env))
+            if len(results) == 1:
+                results.append(dict(before))
+            env.clear()
+            env.update(before)
+            for vid in set(results[0]) | set(results[1]):
+                a_, b_ = results[0].get(vid), results[1].get(vid)
+                if a_ == b_:
+                    env[vid] = a_
+                elif a_ is not None and b_ is not None and a_[0] == "val" and b_[0] == "val":
+                    env[vid] = ("var", {(cond, True): a_[1], (cond, False): b_[1]})
+                else:
+                    raise AnalysisBroken("context_init: a frame pointer is moved conditionally")
             continue
-        if is_assert_stmt(s) or k in ("WhileStmt",):
+        if is_assert_stmt(s) or k in ("WhileStmt", "IfStmt"):
             continue
-    if stk is None or sp_off is None:
+        simple(s)
+    if not state["started"] or state["sp_off"] is None:
         raise AnalysisBroken("context_init: cannot find the frame construction (stack cursor / stack_pointer store)")
-    return bytemap, sp_off, base, stores
+    return bytemap, state["sp_off"], state["base"], stores
 
 
 def slot_value(bytemap, off, size):
@@ -366,6 +421,11 @@ def rules(rep, m):
         elif s_["kind"] == "CompoundAssignOperator" and s_.get("opcode") in ("+=", "-="):
             l = strip(kids(s_)[0], casts=True)
             key = cix.canon(l) if l["kind"] == "MemberExpr" else "local:" + l["ref"]["id"] if l["kind"] == "DeclRefExpr" else None
+            r0_ = strip(kids(s_)[1], casts=True)
+            if s_["opcode"] == "-=" and key and r0_["kind"] == "BinaryOperator" and r0_.get("opcode") == "%" and \
+                    int_value(strip(kids(r0_)[1], casts=True)) == 16 and cix.canon(kids(r0_)[0]) == cix.canon(l):
+                env[key] = 0            # p -= p % 16
+                continue
             d_ = residue(kids(s_)[1], env)
             if key:
                 env[key] = None if env.get(key) is None or d_ is None else (env[key] + (d_ if s_["opcode"] == "+=" else -d_)) % 16
